@@ -312,10 +312,14 @@ def _unconditional_index_reads(stmt: ast.AST) -> list[ast.Subscript]:
     return out
 
 
+# type tests are pure: `ok = isinstance(x, T)` is an equality that survives until x or ok is rebound
+_PURE_TESTS = {"isinstance", "issubclass", "callable", "hasattr", "all", "any", "bool"}
+
+
 def _has_call_other_than(expr: ast.AST, ok: set[str]) -> bool:
     for n in ast.walk(expr):
         if isinstance(n, ast.Call):
-            if not (isinstance(n.func, ast.Name) and n.func.id in ok):
+            if not (isinstance(n.func, ast.Name) and (n.func.id in ok or n.func.id in _PURE_TESTS or n.func.id.startswith("is_"))):
                 return True
         if isinstance(n, (ast.Await, ast.Yield, ast.YieldFrom)):
             return True
